@@ -34,6 +34,16 @@ def model_values(model, x, tol=1e-12):
     return bool(okp), bool(okl), f"logP {x['logP']} vs {lp}; logL {x['logL']} vs {ll}"
 
 
+def inside_box(m, x):
+    """Independent of Model.in_bounds: exact comparison with the declared bounds, field by name."""
+    x = np.atleast_1d(x)
+    ok = np.ones(len(x), dtype=bool)
+    for n in m.names:
+        lo, hi = m.bounds[n]
+        ok &= (x[n] >= lo) & (x[n] <= hi)
+    return ok
+
+
 class StdMonitor:
     def __init__(self, model=None, check_model_values=True):
         self.errs = []  # (clause, detail)
@@ -66,8 +76,8 @@ class StdMonitor:
     def _check_support(self, ns, x, where):
         m = self.model or ns.model
         x = np.atleast_1d(x)
-        if not np.all(m.in_bounds(x)):
-            self.err(f"{where}:outside-prior-bounds", x)
+        if not np.all(inside_box(m, x)):
+            self.err(f"{where}:outside-prior-bounds", x[~inside_box(m, x)][:1])
         if self.check_model_values:
             okp, okl, d = model_values(m, x)
             if not okp:
@@ -231,8 +241,8 @@ class PoolMonitor:
             self.err(f"{kind}-pool-larger-than-requested", f"{len(s)} vs {requested}")
         if len(s) == 0:
             return
-        if not np.all(m.in_bounds(s)):
-            self.err(f"{kind}:pool-point-outside-prior-bounds", s[~m.in_bounds(s)][:1])
+        if not np.all(inside_box(m, s)):
+            self.err(f"{kind}:pool-point-outside-prior-bounds", s[~inside_box(m, s)][:1])
         if not np.all(np.isfinite(s["logP"])):
             self.err(f"{kind}:pool-point-with-non-finite-logP")
         okp, okl, d = model_values(m, s)
